@@ -421,6 +421,21 @@ H_Extend(e) ==
         /\ DropsAre(e, X.drops)
         /\ Chk("C01", "extend_len", e, Post(e, s).len = Cardinality(X.E))
 
+\* C04's own sentence, executed on the real map: insert capacity()-len() previously unseen keys
+H_Probe(e) ==
+    LET s == e.s IN
+    /\ Frame(e, {s})
+    /\ Chk("C04", "probe_completes_without_panic", e, ~Panicked(e))
+    /\ (~Panicked(e) /\ Alive(e.st, s)) =>
+        /\ Chk("C04", "probe_size", e, e.k = Len(e.objs) /\ (e.k = Pre(s).cap - Pre(s).len \/ e.k = 400 \/ Hdr.elem = "zst"))
+        /\ Chk("C04", "probe_allocates_no_table", e, AL(e) = 0)
+        /\ Chk("C04", "probe_capacity_never_decreases", e, e.mincap >= Pre(s).cap /\ Post(e, s).cap >= Pre(s).cap)
+        /\ Chk("C04", "probe_leaves_no_resize_pending", e, (e.k > 0 /\ e.k < 400) => ~IsSplit(Post(e, s)))
+        /\ Chk("C04,C01", "probe_contents", e,
+               BothFull(e, s) => Cont(Post(e, s)) = Cont(Pre(s)) \cup ToSet(e.objs))
+        /\ Chk("C04,C01", "probe_len", e, Post(e, s).len = Pre(s).len + e.k)
+        /\ DropsAre(e, {})
+
 H_Clone(e) ==
     LET s == e.s
         d == e.d
@@ -886,6 +901,7 @@ Dispatch(e) ==
       [] e.op = "RawEntry" -> H_RawEntry(e)
       [] e.op = "SAlg" -> H_SAlg(e)
       [] e.op = "Debug" -> H_Debug(e)
+      [] e.op = "Probe" -> H_Probe(e)
       [] e.op = "Par" -> H_Par(e)
       [] e.op = "ParEq" -> H_ParEq(e)
       [] e.op \in {"ParExtend", "FromPar"} -> H_ParExtend(e)
